@@ -86,6 +86,29 @@ pub fn check(ctxs: &[&MCTPSMBusContext], x: &[u8], rep: &mut Report) {
             break;
         }
     }
+    // what the *reference* says about this input (the coverage floor is stated in these terms, not in
+    // terms of the error values the library happens to use)
+    match &r {
+        RefOut::Accept { .. } => rep.class("judged:must-accept"),
+        RefOut::Reject(t) => {
+            if t.hdr_bad {
+                rep.class("judged:must-reject:header-unsupported");
+            }
+            if t.pec_bad {
+                rep.class("judged:must-reject:pec-wrong");
+            }
+            if t.len_bad {
+                rep.class("judged:must-reject:length-wrong");
+            }
+            if t.cc.is_some() {
+                rep.class("judged:must-reject:completion-code-1-5");
+            }
+            if t.cc_undefined {
+                rep.class("judged:must-reject:completion-code-6-255");
+            }
+        }
+        RefOut::OutOfClaim(_) => {}
+    }
     match (&r, got) {
         (_, DecOut::Panic(p)) => {
             rep.violation(&format!("in-domain-panic:{}:{}", dclass, p.kind), || format!("decode_packet panicked on in-claim input {}: {}", hex(x), p.long()), case);
@@ -152,7 +175,7 @@ fn finish(rep: &mut Report, cfg: &RunCfg) {
         return;
     }
     floor(rep, cfg, 100_000);
-    for c in ["agree:accept", "agree:reject:err:0xff:Unknown", "agree:reject:err:0x00:InvalidPEC", "agree:reject:err:0x00:InvalidRequestDataLength", "agree:reject:err:0x00:Unsuccessful", "agree:reject:err:0x7e:InvalidPEC"] {
+    for c in ["judged:must-accept", "judged:must-reject:header-unsupported", "judged:must-reject:pec-wrong", "judged:must-reject:length-wrong", "judged:must-reject:completion-code-1-5", "judged:must-reject:completion-code-6-255"] {
         if !rep.classes.contains_key(c) {
             rep.inconclusive.push(format!("outcome class '{}' never observed", c));
         }
